@@ -137,6 +137,11 @@ class ComputeWeightsModified3(Contract):
     file, qualname = FILE, "GlobalTrapezoidalGrid.compute_weights"
     label = "GlobalTrapezoidalGrid.compute_weights[modified,n=3]"
 
+    @staticmethod
+    def model_to_input(model):
+        from pyvc import modelparse as mp
+        return {"kind": "C09.weights", "grid": [mp.tofloat(v) for v in mp.seq(model, "grid_1D", 3)], "modified": True}
+
     def inputs(self, S):
         x = S.seq("grid_1D", 3, R, kind="array")
         return {"grid_1D": x, "a": S.real("a"), "b": S.real("b"), "modified_basis": True}
@@ -157,6 +162,11 @@ class ComputeWeightsModified4(Contract):
     the rule is exact for constants and linear functions"""
     file, qualname = FILE, "GlobalTrapezoidalGrid.compute_weights"
     label = "GlobalTrapezoidalGrid.compute_weights[modified,n=4]"
+
+    @staticmethod
+    def model_to_input(model):
+        from pyvc import modelparse as mp
+        return {"kind": "C09.weights", "grid": [mp.tofloat(v) for v in mp.seq(model, "grid_1D", 4)], "modified": True}
 
     def inputs(self, S):
         x = S.seq("grid_1D", 4, R, kind="array")
